@@ -1,0 +1,7 @@
+//go:build !verif
+
+package eval
+
+// verifTraceC18 is the inert stub of the pipeline-protocol event log; see
+// trace_c18_verif.go (build tag verif).
+func verifTraceC18(label string, args ...any) {}
